@@ -471,6 +471,45 @@ func ruleC02(c *Ctx) {
 			}
 		}
 		c.Require("loopshape", fname(cm)+": one public key consumed per iteration, a signature only when it verified", ok, "%s", d)
+		// every item popped in a collecting loop is kept: no path from the pop back to the loop header
+		// avoids the append that stores it (an item silently dropped would not count as a missing signature)
+		nPop, dropped := 0, ""
+		for _, p := range callsTo(cm, false, "(*protocol/vm.virtualMachine).pop") {
+			h, body := innermostLoop(p.Block())
+			if h == nil {
+				continue
+			}
+			nPop++
+			var keep *ssa.BasicBlock
+			for _, a := range callsTo(cm, false, "builtin:append") {
+				if body[a.Block()] && len(a.Common().Args) >= 2 && mentions(a.Common().Args[1], func(v ssa.Value) bool {
+					ex, ok := v.(*ssa.Extract)
+					return ok && ex.Tuple == p.Value()
+				}, 6, nil) {
+					keep = a.Block()
+				}
+			}
+			if keep == nil {
+				dropped = "the item popped at " + c.Pos(p.Pos()) + " is not appended in its loop"
+				continue
+			}
+			seen := map[*ssa.BasicBlock]bool{p.Block(): true}
+			st := []*ssa.BasicBlock{p.Block()}
+			for len(st) > 0 {
+				b := st[len(st)-1]
+				st = st[:len(st)-1]
+				for _, s := range b.Succs {
+					if s == h && b != keep && !keep.Dominates(b) {
+						dropped = "an iteration can end at " + c.Pos(b.Instrs[len(b.Instrs)-1].Pos()) + " without keeping the item popped at " + c.Pos(p.Pos())
+					}
+					if !seen[s] && body[s] && s != keep && s != h {
+						seen[s] = true
+						st = append(st, s)
+					}
+				}
+			}
+		}
+		c.Require("loopshape", fname(cm)+": every popped key and signature is kept", nPop >= 2 && dropped == "", "%d collecting loop(s) %s", nPop, dropped)
 		// success iff no signature left
 		okp := false
 		for _, pb := range callsTo(cm, false, "(*protocol/vm.virtualMachine).pushBool") {
